@@ -569,14 +569,14 @@ Section QD2.
   Variable quota : Q -> Z -> Q.
   Variable accept_equal : bool.
 
-  Lemma scan_nodup votes q n prev caps : forall acc,
-    NoDup (map fst (fst (fst acc))) -> NoDup (map fst (fst (fst (scan accept_equal votes q n prev caps acc)))).
+  Lemma scan_nodup votes q prev caps : forall sel,
+    NoDup (map fst sel) -> NoDup (map fst (scan accept_equal votes q prev caps sel)).
   Proof.
-    induction votes as [|[c v] t IH]; intros [[sel nov] ovc] H; cbn [scan]; [exact H|].
-    apply IH. cbn [fst] in H.
+    induction votes as [|[c v] t IH]; intros sel H; cbn [scan]; [exact H|].
+    apply IH.
     destruct (fulfills accept_equal v q); [|exact H].
     destruct (0 <? _); [|exact H].
-    destruct (_ <? _); cbn [fst]; apply dset_nodup_z, H.
+    apply dset_nodup_z, H.
   Qed.
 
   Lemma fulfills_ge v q : fulfills accept_equal v q = true -> (q <= v)%Q.
@@ -587,40 +587,42 @@ Section QD2.
     - apply andb_true_iff in H. destruct H as [_ H]. apply Qeq_bool_iff in H. rewrite H. apply Qle_refl.
   Qed.
 
-  (* on_overaward = 'subtract', uncapped domain, positive quota: the over-award loop is fully modelled (no Tie of a
+  (* on_overaward = 'subtract', positive quota, any caps: the over-award loop is fully modelled (no Tie of a
      Tie can arise) and a finished loop leaves exactly the seats to fill *)
-  Theorem qd_subtract_domain votes n prev caps :
+  Theorem qd_subtract_capped votes n prev caps :
     let q := quota (qsumv votes) n in
-    (0 < q)%Q -> NoDup (map fst votes) -> no_overshoot accept_equal votes q n prev caps ->
+    (0 < q)%Q -> NoDup (map fst votes) ->
     qd_evaluate quota accept_equal PSubtract votes n prev caps <> QD_unmodelled /\
     exists sel,
-      (forall c v, In (c, v) votes -> dget_or sel c 0 = whole_add accept_equal q prev c v) /\
+      (forall c v, In (c, v) votes -> dget_or sel c 0 = cap_add accept_equal q prev caps c v) /\
       (forall c, ~ In c (map fst votes) -> dget_or sel c 0 = 0) /\
       forall res, qd_evaluate quota accept_equal PSubtract votes n prev caps = QD_ok res ->
         ksum res + zsumv prev = Z.min n (zsumv sel + zsumv prev).
   Proof.
-    intros q Hq Hnd Hno. unfold qd_evaluate. cbn [qd_eval]. fold q.
+    intros q Hq Hnd. unfold qd_evaluate. fold q.
     assert (Qeq_bool q 0 = false) as Hq0.
     { apply not_true_iff_false. intros H. apply Qeq_bool_iff in H. rewrite H in Hq. exact (Qlt_irrefl 0 Hq). }
     rewrite Hq0. cbn [andb].
-    destruct (scan_no_overshoot accept_equal votes q n prev caps [] 0 [] Hno Hnd) as (sel & Hs & Hv & Hn & Hin).
+    destruct (scan_spec accept_equal votes q prev caps [] Hnd) as (Hv & Hn & Hin).
     { intros; reflexivity. }
-    pose proof (scan_nodup votes q n prev caps ([], 0, []) (NoDup_nil _)) as Hnds. rewrite Hs in Hnds. cbn [fst] in Hnds.
-    rewrite Hs. cbn [Z.eqb existsb flat_map]. unfold add_dict. cbn [fold_left].
+    pose proof (scan_nodup votes q prev caps [] (NoDup_nil _)) as Hnds.
+    set (sel := scan accept_equal votes q prev caps []) in *.
     assert (Hw : forall c s, In (c, s) sel -> (q * inject_Z (s + dget_or prev c 0)%Z <= dget_or votes c 0%Q)%Q).
     { intros c s Hcs. destruct (Hin c s Hcs) as [[]|(Hs0 & v & Hcv)].
       assert (Hg : dget_or sel c 0 = s) by (unfold dget_or; rewrite (In_dget sel c s Hnds Hcs); reflexivity).
       assert (Hgv : dget_or votes c 0%Q = v) by (unfold dget_or; rewrite (In_dget votes c v Hnd Hcv); reflexivity).
-      rewrite Hgv. rewrite (Hv c v Hcv) in Hg. unfold whole_add in Hg.
+      rewrite Hgv. rewrite (Hv c v Hcv) in Hg. unfold cap_add in Hg.
       destruct (fulfills accept_equal v q) eqn:Ef; [|lia].
-      destruct (0 <? py_trunc (v / q) - dget_or prev c 0) eqn:Ea; [|lia].
+      destruct (0 <? cap_whole caps c (py_trunc (v / q)) - dget_or prev c 0) eqn:Ea; [|lia].
       pose proof (fulfills_ge v q Ef) as Hge.
       assert (Hpos : (0 <= v / q)%Q).
       { apply Qle_shift_div_l; [exact Hq|]. setoid_replace (0 * q)%Q with 0%Q by ring. eapply Qle_trans; [apply Qlt_le_weak, Hq|exact Hge]. }
       rewrite (py_trunc_floor _ Hpos) in Hg.
-      replace (s + dget_or prev c 0) with (Qfloor (v / q)) by lia.
+      assert (Hle : s + dget_or prev c 0 <= Qfloor (v / q)).
+      { unfold cap_whole in Hg. destruct (dget caps c) as [m|]; lia. }
       pose proof (Qfloor_le (v / q)) as Hfl.
-      assert (Hm : (q * inject_Z (Qfloor (v / q)) <= q * (v / q))%Q) by (apply Qmult_le_l; assumption).
+      assert (Hm : (q * inject_Z (s + dget_or prev c 0)%Z <= q * (v / q))%Q).
+      { apply Qmult_le_l; [exact Hq|]. eapply Qle_trans; [|exact Hfl]. rewrite <- Zle_Qle. exact Hle. }
       assert (Hd : (q * (v / q) == v)%Q) by (field; intros H0; rewrite H0 in Hq; exact (Qlt_irrefl 0 Hq)).
       rewrite Hd in Hm. exact Hm. }
     split.
@@ -632,5 +634,21 @@ Section QD2.
         assert (Hov : 0 <= zsumv sel + zsumv prev - n) by lia.
         rewrite (subtract_total votes q prev _ sel _ res Hnds Hov Hr). lia.
       + apply Z.ltb_ge in E. intros [= <-]. fold (plain sel). rewrite ksum_plain. lia.
+  Qed.
+
+  (* ... in particular on the domain where no whole-quota count exceeds a cap *)
+  Theorem qd_subtract_domain votes n prev caps :
+    let q := quota (qsumv votes) n in
+    (0 < q)%Q -> NoDup (map fst votes) -> no_overshoot accept_equal votes q n prev caps ->
+    qd_evaluate quota accept_equal PSubtract votes n prev caps <> QD_unmodelled /\
+    exists sel,
+      (forall c v, In (c, v) votes -> dget_or sel c 0 = whole_add accept_equal q prev c v) /\
+      (forall c, ~ In c (map fst votes) -> dget_or sel c 0 = 0) /\
+      forall res, qd_evaluate quota accept_equal PSubtract votes n prev caps = QD_ok res ->
+        ksum res + zsumv prev = Z.min n (zsumv sel + zsumv prev).
+  Proof.
+    intros q Hq Hnd Hno. destruct (qd_subtract_capped votes n prev caps Hq Hnd) as (Hm & sel & Hv & Hn & Hr).
+    split; [exact Hm|]. exists sel. split; [|split; [exact Hn|exact Hr]].
+    intros c v Hcv. fold q in Hv. rewrite (Hv c v Hcv). apply (cap_add_no_overshoot accept_equal votes q n prev caps c v Hno Hcv).
   Qed.
 End QD2.
